@@ -772,3 +772,34 @@ def index_guards(ctx, meths, rule='C14.D1'):
                 ctx.ob(rule, 'Grid.%s: the explicit index test `%s` is the list rule' % (name, norm(node.test)[:50]), True,
                        '%s:%d' % (F, node.lineno))
     ctx.count('explicit index range tests in Grid primitives', n_tests)
+
+
+def setitem_unconditional(ctx, meths, rule='C14.D1'):
+    """g[i] = row REPLACES the row at i, whatever was there: the store is not skipped when the old row `==` the new one
+    (True == 1, -0.0 == 0.0, an equal but distinct dict: the list would now hold the new object)."""
+    from .c17 import _guards
+    m = ctx.model
+    try:
+        fn = m.func(MOD, 'Grid.__setitem__', 'nested')
+    except AnalysisError as e:
+        ctx.error(rule, str(e))
+        return
+    s = _self(fn)
+    stores = [st for st in ast.walk(fn) if isinstance(st, ast.Assign) and any(
+        isinstance(t, ast.Subscript) and norm(t.value) == '%s._row' % s for t in st.targets)]
+    if not stores:
+        return
+    st = stores[0]
+    conds = [(t, pol) for t, pol in _guards(fn, st)
+             if any(isinstance(x, ast.Attribute) and norm(x) == '%s._row' % s for x in ast.walk(t))
+             and isinstance(t, ast.Compare) and isinstance(t.ops[0], (ast.Eq, ast.NotEq, ast.Is, ast.IsNot))]
+    if conds:
+        t, pol = conds[0]
+        ctx.violation(rule, '%s::Grid.__setitem__' % F, norm(t),
+                      'g = grid with the row {"v": 1}; g[0] = {"v": True}: the rows compare equal (a bool is an int), so under `%s` '
+                      'the store is skipped -- g[0] keeps returning the old row object, a ZINC dump writes 1 instead of T, and '
+                      'reverse() (which swaps rows through item assignment) leaves equal rows where they were; a list holds the '
+                      'new object' % norm(t), 'the store of Grid.__setitem__ is conditional on comparing the old row with the new '
+                      'one', file=F, line=st.lineno, engine='E6')
+    else:
+        ctx.ob(rule, 'Grid.__setitem__ stores the row whatever the old row was', True, '%s:%d' % (F, st.lineno))
